@@ -610,7 +610,7 @@ class Violation:
 
 
 def load_known_findings() -> List[Dict[str, Any]]:
-    p = VERIF / "known_findings.json"
+    p = Path(os.environ.get("VERIF_KNOWN_FINDINGS", str(VERIF / "known_findings.json")))      # (override: development aid only)
     if not p.exists():
         return []
     return json.loads(p.read_text()).get("findings", [])
